@@ -18,11 +18,13 @@ pub fn no_child(_: &[String]) -> i32 {
     2
 }
 
+pub mod hnsw;
 pub mod index;
 pub mod okey;
 
 pub fn all() -> Vec<StreamDef> {
     vec![
+        hnsw::def(),
         index::def(),
         okey::def(),
     ]
